@@ -117,6 +117,8 @@ pub struct Trial {
 }
 
 pub const LARGE_K: [u32; 4] = [2000, 4000, 6000, 10000];
+/// block sizes just above the dense/sparse switch-over and up to 1000
+pub const MID_K: [u32; 7] = [250, 257, 300, 400, 500, 700, 1000];
 
 pub fn band_of(k: u32) -> usize {
     if k <= 120 {
@@ -130,9 +132,15 @@ pub fn band_of(k: u32) -> usize {
 const BAND_NAMES: [&str; 3] = ["K<=120", "121..1000", "large (2000..10000)"];
 
 pub fn gen_trial(seed: u64, h: u32, thorough: bool, large: bool) -> Trial {
+    gen_trial_band(seed, h, thorough, if large { 2 } else { 0 })
+}
+
+pub fn gen_trial_band(seed: u64, h: u32, thorough: bool, band: u8) -> Trial {
     let mut r = Rng::new(seed);
-    let k = if large {
+    let k = if band == 2 {
         *r.pick(&LARGE_K)
+    } else if band == 1 {
+        *r.pick(&MID_K)
     } else if thorough && r.chance(1, 40) {
         r.range(121, 1000) as u32
     } else if r.chance(3, 4) {
@@ -308,8 +316,10 @@ pub fn run(ctx: &Ctx) -> i32 {
     // large-block band: few trials (0.1-1 s each), tested on its own so that a weakening confined to
     // large blocks is not diluted by the small-block trials
     let large_per_h = ctx.runs(96, 2_000);
+    // middle band (250..1000: the sparse back-end's smaller sizes), 1-2 ms per trial
+    let mid_per_h = ctx.runs(20_000, 400_000);
     let small_total: u64 = counts.iter().sum();
-    let total: u64 = small_total + 3 * large_per_h;
+    let total: u64 = small_total + 3 * large_per_h + 3 * mid_per_h;
     let seed = ctx.seed;
     let (acc, fail) = par_fold(
         total,
@@ -317,19 +327,22 @@ pub fn run(ctx: &Ctx) -> i32 {
         48,
         |run, acc: &mut Acc| {
             // the expensive large-block trials come first so that they spread over all workers
-            let (h, idx, large) = if run < 3 * large_per_h {
-                ((run % 3) as u32, run / 3, true)
-            } else {
+            let (h, idx, band) = if run < 3 * large_per_h {
+                ((run % 3) as u32, run / 3, 2u8)
+            } else if run < 3 * large_per_h + 3 * mid_per_h {
                 let run = run - 3 * large_per_h;
+                ((run % 3) as u32, run / 3, 1u8)
+            } else {
+                let run = run - 3 * large_per_h - 3 * mid_per_h;
                 if run < counts[0] {
-                    (0u32, run, false)
+                    (0u32, run, 0u8)
                 } else if run < counts[0] + counts[1] {
-                    (1, run - counts[0], false)
+                    (1, run - counts[0], 0)
                 } else {
-                    (2, run - counts[0] - counts[1], false)
+                    (2, run - counts[0] - counts[1], 0)
                 }
             };
-            let t = gen_trial(trial_seed(seed, h + if large { 10 } else { 0 }, idx), h, thorough, large);
+            let t = gen_trial_band(trial_seed(seed, h + 10 * band as u32, idx), h, thorough, band);
             let r = run_trial(&t);
             match r {
                 Ok(ok) => {
@@ -486,7 +499,7 @@ pub fn run(ctx: &Ctx) -> i32 {
             level: "exploration",
             evaluations: acc.n.iter().sum(),
             distinct_nontrivial: acc.states.len() as u64,
-            rule: "one evaluation = one decoding trial: a seeded set of exactly K+h distinct encoding symbols (uniform over all 2^24 ids, or a channel mixture of surviving source symbols topped up with uniformly drawn repair ids; never the trivial all-source set) handed to a fresh SourceBlockDecoder in one call, one call per symbol, K at once and the rest one by one, or the same with retransmitted copies of earlier symbols in between; failure = no call answered. Decision: exact binomial tests of the failure counts, pooled and per block-size band (K<=120, 121..1000, large blocks 2000..10000), against the advertised bounds at alpha = 1e-9 each. distinct_nontrivial = distinct (K, h, symbol set) trials".into(),
+            rule: "one evaluation = one decoding trial: a seeded set of exactly K+h distinct encoding symbols (uniform over all 2^24 ids, or a channel mixture of surviving source symbols topped up with uniformly drawn repair ids; never the trivial all-source set) handed to a fresh SourceBlockDecoder in one call, one call per symbol, K at once and the rest one by one, or the same with retransmitted copies of earlier symbols in between; failure = no call answered. Decision: exact binomial tests of the failure counts, pooled and per block-size band (K<=120, 121..1000 with 250..1000 sampled on purpose, large blocks 2000..10000), against the advertised bounds at alpha = 1e-9 each. distinct_nontrivial = distinct (K, h, symbol set) trials".into(),
             samples: acc.samples.clone(),
             extra: json!({
                 "per_overhead": stats,
